@@ -36,6 +36,7 @@ def handle (line : String) : String :=
       | "dscan"   => handleDScan fs
       | "progress" => handleProgress fs
       | "hshake"  => handleHShake fs
+      | "riter"   => handleRIter fs
       | "top5"    => handleTop5 fs
       | "ratios"  => handleRatios fs
       | "exc"     => handleExc fs
